@@ -1066,7 +1066,7 @@ class SymEval:
 
     def is_new_helper(self, target: FuncInfo) -> bool:
         known = _known_api()
-        return bool(known) and target.qualname not in known and target.parent is None
+        return bool(known) and target.qualname not in known and target.parent is None and target.qualname not in self.model.aliases().values()
 
     def should_inline(self, target: FuncInfo, name: str, method: Optional[str]) -> bool:
         return (target.qualname in self.inline) or (target.name in self.inline) or ("*" in self.inline)
@@ -1204,7 +1204,7 @@ class SymEval:
             if p.arg not in env:
                 env[p.arg] = self.eval(d, c.frame) if d is not None else T.sym(f"?{p.arg}")
         known = _known_api()
-        as_helper = bool(known) and c.kind == "def" and c.qualname not in known and frame is not None and len(self.helper_stack) < 3 \
+        as_helper = bool(known) and c.kind == "def" and c.qualname not in known and c.qualname not in self.model.aliases().values() and frame is not None and len(self.helper_stack) < 3 \
             and c.qualname not in self.helper_stack and not c.qualname.endswith(">")
         sub = Frame(frame.func if as_helper else c.qualname, c.frame.module, c.frame.cls, env, parent=c.frame)
         sub.is_helper = as_helper
